@@ -933,11 +933,16 @@ func run(r *core.Run) int {
 	cases := Cases(r.Quick(), r.Seed)
 	r.Set("cases", len(cases))
 	reps := r.Pick(2, 5)
+	began := time.Now()
+	budget := time.Duration(r.Pick(4, 30)) * time.Minute // only limits how long a tree that already violates is explored
 	orders := map[string]bool{}
 	for rep := 0; rep < reps; rep++ {
+		if r.Violations() > 0 && rep > 0 {
+			break // repetitions only serve to surface rare races on a tree that looks clean
+		}
 		start := 0
 		for attempt := 0; start < len(cases) && attempt < 40; attempt++ {
-			if r.Violations() > 30 || r.Counter("stuck") >= 3 {
+			if r.Violations() > 30 || r.Counter("stuck") >= 3 || (r.Violations() > 0 && time.Since(began) > budget) {
 				r.Set("stopped_early", "more than 30 violations or 3 wedged calls: the remaining cases were not executed")
 				break
 			}
